@@ -17,7 +17,7 @@ RULE = {
     "run-time: faulting programs in both pipeline modes. every outcome is classified. non-trivial = distinct (fault kind, outcome class) pairs and distinct faulting texts that raised; distinct by hash of the text.",
 }
 ASSUMPTIONS = {"C15": ["'terminates' is restated as: returns within a 20 s watchdog per text (watchdog firing = inconclusive)", "line numbers are judged against text.splitlines(); the line text of the exception is recorded as a diagnostic only"]}
-REQUIRED = {"C15": ["rv_texts", "toy_texts", "parser_exceptions", "loads_ok", "memory_size_or_address_errors", "soups", "runtime_faults_single", "runtime_faults_five", "hostile_literals_injected", "line_numbers_checked", "runtime_cases_with_cache"]}
+REQUIRED = {"C15": ["rv_texts", "toy_texts", "parser_exceptions", "loads_ok", "memory_size_or_address_errors", "soups", "runtime_faults_single", "runtime_faults_five", "hostile_literals_injected", "line_numbers_checked", "runtime_cases_with_cache", "failing_address_footprints_checked"]}
 
 HOSTILE = ["010", "-01", "00", "007", "0x", "0b", "0b2", "0X1", "0B1", "1e3", "1_0", "1_000", "１２", "١٢", "123456789012345678901234567890", "-123456789012345678901234567890", "+5", "--5", "0x-5", "5-", "0xg", "1.5", "''", "0x1_0", "0o17", "0b", "-", "0b102", "09", "-0", "-00", "0x00000000000000000000000000001", "1 2", "²", "0٠"]
 
@@ -224,25 +224,68 @@ def directed_texts():
 # ------------------------------------------------------------------------------------- run-time
 
 
+def _capable(mn, msg):
+    """can an instruction with this mnemonic raise an error with this message?"""
+    m = msg.lower()
+    if "memoryaddresserror" in m or "cannot access" in m or "offset" in m:
+        return mn in ("lb", "lh", "lw", "lbu", "lhu", "sb", "sh", "sw", "ecall")
+    if "ecall" in m:
+        return mn == "ecall"
+    if "implemented" in m:
+        return mn in ("ebreak", "fence") or mn.startswith("csr")
+    if "csr" in m or "privilege" in m or "illegal action" in m:
+        return mn.startswith("csr")
+    return True  # unknown message class: nothing to say
+
+
 def run_runtime_case(case, res):
+    """C15, run-time half.  What is judged is the REPORT, not the computation (that is C01/C02):
+      1. the exception type, that address names an instruction of the program and instruction_repr is its printed form;
+      2. the named instruction is able to raise that kind of error at all;
+      3. for address errors the failing memory address of the message lies in the footprint (cache block, if a data
+         cache is on) of the named instruction given the registers at the fault;
+      4. as long as the real run agrees with the sequential reference (single-cycle, checked step by step; five-stage:
+         registers and output at the fault), the address must be the reference's failing instruction, and a failure
+         the reference has must be reported."""
+    import re
     from architecture_simulator.simulation.runtime_errors import InstructionExecutionException
+    from ..refmodels.rv32 import footprint, srcs, LOADS, STORES
 
     prog = {4 * i: d for i, d in enumerate(case["prog"])}
-    seq = SeqRef(prog, case["regs"], case["mem"])
-    seq.keep_trace = False
-    r = seq.run(case["max_instr"])
-    want = r[1] if isinstance(r, tuple) else None
+    pinned = case.get("dcache") is None or case.get("within_word")
+    cfg = case.get("dcache")
+    block = (4 << cfg["bb"]) if cfg else 1
     for mode in ("single", "five"):
-        sim = make_riscv(mode, hz=True, dcache=case.get("dcache"))
+        sim = make_riscv(mode, hz=True, dcache=cfg)
         install_program(sim, case["prog"])
         set_regs(sim, case["regs"])
         preload_mem(sim, case["mem"])
+        seq = SeqRef(prog, case["regs"], case["mem"])
+        seq.keep_trace = False
         k = 0
         err = None
+        agree = True
+        want = None
         try:
             while not sim.is_done() and k < 6 * case["max_instr"] + 20:
-                sim.step()
-                k += 1
+                if mode == "single" and agree and not seq.done() and seq.n < case["max_instr"]:
+                    try:
+                        seq.step()
+                    except Fault:
+                        want = seq.pc
+                        sim.step()  # must raise
+                        if pinned:
+                            res.violation("C15", "runtime-fault-missing", "single mode: every step so far agreed with the reference, the instruction at %d fails (reference) but step() raised nothing" % want, case)
+                            return
+                        agree = False
+                        continue
+                    sim.step()
+                    k += 1
+                    if [int(x) for x in sim.state.register_file.registers] != seq.x or (sim.state.program_counter - seq.pc) % (1 << 32):
+                        agree = False
+                else:
+                    sim.step()
+                    k += 1
         except InstructionExecutionException as e:
             err = e
         except BaseException as e:
@@ -250,23 +293,44 @@ def run_runtime_case(case, res):
                 raise
             res.violation("C15", "untyped-runtime-error", "%s mode: step() raised %s: %s" % (mode, type(e).__name__, str(e)[:200]), case)
             return
-        if err is not None:
-            res.count("runtime_faults_" + mode)
-            obj = sim.state.instruction_memory.read_instruction(err.address) if isinstance(err.address, int) and sim.state.instruction_memory.instruction_at_address(err.address) else None
-            bad = []
-            if (case.get("dcache") is None or case.get("within_word")) and err.address != want:
-                bad.append("address %r, failing instruction is at %r" % (err.address, want))
-            if obj is None or err.instruction_repr != repr(obj):
-                bad.append("instruction_repr %r is not the printed form %r of the instruction at %r" % (err.instruction_repr, obj, err.address))
-            if not isinstance(err.error_message, str):
-                bad.append("error_message is %r" % (err.error_message,))
-            if bad:
-                res.violation("C15", "runtime-error-fields", "%s mode: %s" % (mode, "; ".join(bad)), case)
-                return
-            res.nontrivial(h64([case["prog"], case["regs"], mode]))
-        elif want is not None and (case.get("dcache") is None or case.get("within_word")):
-            res.violation("C15", "runtime-fault-missing", "%s mode: reference faults at %r but no InstructionExecutionException was raised" % (mode, want), case)
+        if err is None:
+            continue
+        res.count("runtime_faults_" + mode)
+        rr = [int(x) for x in sim.state.register_file.registers]
+        im = sim.state.instruction_memory
+        obj = im.read_instruction(err.address) if isinstance(err.address, int) and im.instruction_at_address(err.address) else None
+        bad = []
+        if obj is None or err.instruction_repr != repr(obj):
+            bad.append("instruction_repr %r is not the printed form %r of the instruction at %r" % (err.instruction_repr, obj, err.address))
+        if not isinstance(err.error_message, str):
+            bad.append("error_message is %r" % (err.error_message,))
+        elif obj is not None:
+            d = prog.get(err.address)
+            mn = obj.mnemonic
+            if not _capable(mn, err.error_message):
+                bad.append("the named instruction %r cannot raise %r" % (repr(obj), err.error_message[:80]))
+            mm = re.search(r"at address 0x(-?[0-9A-Fa-f]+)", err.error_message)
+            if mm and d is not None and (mn in LOADS or mn in STORES) and "data memory" in err.error_message:
+                res.count("failing_address_footprints_checked")
+                fa = int(mm.group(1), 16) & M32
+                ops = tuple(rr[s_] for s_ in srcs(d))
+                fp = footprint(d, ops)
+                blocks = {a // block for a in fp} if block > 1 else None
+                if (fa not in fp) and not (blocks and fa // block in blocks):
+                    bad.append("the message reports failing memory address %#x, but %r with the registers at the fault accesses %s" % (fa, repr(obj), [hex(a) for a in fp]))
+        # reference agreement: single-cycle step by step (above); five-stage: state at the fault
+        if mode == "five" and pinned:
+            s2 = SeqRef(prog, case["regs"], case["mem"])
+            s2.keep_trace = False
+            r2 = s2.run(case["max_instr"])
+            if isinstance(r2, tuple) and s2.x == rr and s2.out == sim.state.output:
+                want = r2[1]
+        if pinned and want is not None and (mode == "five" or agree) and err.address != want:
+            bad.append("address %r, but the run agrees with the reference whose failing instruction is at %r" % (err.address, want))
+        if bad:
+            res.violation("C15", "runtime-error-fields", "%s mode: %s" % (mode, "; ".join(bad)), case)
             return
+        res.nontrivial(h64([case["prog"], case["regs"], mode]))
 
 
 def run_case(prop, case, res):
